@@ -70,6 +70,7 @@ struct SimCore
         r.draws = c.draws;
         r.epos = c.last_epos;
         r.last_raw = c.last_raw;
+        for (std::uint64_t i = 0; i != 4; ++i) r.raws[i] = c.raw_ring[(c.draws + 1 + i) % 4];
 
         if (!c.log_calls)
         {
@@ -1072,6 +1073,19 @@ public:
         return 0;
     }
 
+    bool assign_from(IWorld const& other) override
+    {
+        Runner const* o = dynamic_cast<Runner const*>(&other);
+        if (o == nullptr || o->integ_ != integ_) return false;
+        if (integ_ == PLAIN && pc_ && o->pc_) *pc_ = *o->pc_;
+        else if (integ_ == VEGAS && vc_ && o->vc_) *vc_ = *o->vc_;
+        else if (integ_ == MULTI && mc_ && o->mc_) *mc_ = *o->mc_;
+        else return false;
+        ran_ = o->ran_;
+        user_state_ = o->user_state_;
+        return true;
+    }
+
     std::unique_ptr<IWorld> clone() const override
     {
         std::unique_ptr<Runner> r(new Runner(nt_, eng_));
@@ -1451,6 +1465,10 @@ public:
     }
 
     RunOut run(Plan const& p, std::vector<u64> const& calls64, RunCtl const& ctl) override;
+
+    bool redo_last_by_hand(Plan const& p, u64 calls, RunCtl const& ctl) override;
+
+    std::string user_chkpt_modes(Plan const& p, std::vector<u64> const& calls, RunCtl const& ctl) override;
 
     SerialRef serial_iteration(Plan const& p, u64 k, RunCtl const& ctl) const override;
 
